@@ -22,6 +22,11 @@ pub(crate) struct SchemaWrapper(Schema);
 
 impl Eq for SchemaWrapper {}
 
+#[cfg(feature = "verif-hooks")]
+pub(crate) fn verif_schema_wrapper(schema: Schema) -> SchemaWrapper {
+    SchemaWrapper(schema)
+}
+
 impl Ord for SchemaWrapper {
     fn cmp(&self, _other: &Self) -> std::cmp::Ordering {
         std::cmp::Ordering::Equal
